@@ -127,22 +127,40 @@ impl Axecutor {
             segment,
         } = o;
         let mut addr: u64 = 0;
+        // With the address-size override prefix (0x67) base and index are 32-bit registers
+        // and the effective address is truncated to 32 bits
+        let mut addr32 = false;
         if let Some(base) = base {
+            let is_32 = iced_x86::Register::from(base).is_gpr32();
+            addr32 |= is_32;
             addr = addr.wrapping_add(
-                self.reg_read_64(base)
-                    .expect("reading memory operand base register"),
+                if is_32 {
+                    self.reg_read_32(base)
+                } else {
+                    self.reg_read_64(base)
+                }
+                .expect("reading memory operand base register"),
             );
         }
         if let Some(index) = index {
+            let is_32 = iced_x86::Register::from(index).is_gpr32();
+            addr32 |= is_32;
             addr = addr.wrapping_add(
-                self.reg_read_64(index)
-                    .expect("reading memory operand index register")
-                    .wrapping_mul(scale as u64),
+                if is_32 {
+                    self.reg_read_32(index)
+                } else {
+                    self.reg_read_64(index)
+                }
+                .expect("reading memory operand index register")
+                .wrapping_mul(scale as u64),
             );
         }
 
         // This overflow is explicitly allowed, as x86-64 encodes negative values as signed integers
         addr = addr.wrapping_add(displacement);
+        if addr32 {
+            addr &= 0xffff_ffff;
+        }
 
         if let Some(reg) = segment {
             match reg {
@@ -201,6 +219,8 @@ impl Axecutor {
                     iced_x86::Register::None => None,
                     // If base is RIP, we can use the displacement as-it. No need to add it to the memory address
                     iced_x86::Register::RIP => None,
+                    // Same for EIP (address-size override), the displacement is already truncated to 32 bits
+                    iced_x86::Register::EIP => None,
                     r => Some(SupportedRegister::from(r)),
                 };
                 let index = match i.memory_index() {
